@@ -136,6 +136,8 @@ func exec1(line string) string {
 	}
 	op, a := f[1], f[2:]
 	switch {
+	case op == "genpanic":
+		return "generator-panicked" // never equal to the Lean answer: a crashed generator is a visible failure
 	case op == "der" && len(a) == 1:
 		return showECDSA(ecdsa.ParseDERSignature(unhex(a[0])))
 	case op == "lax" && len(a) == 1:
